@@ -456,13 +456,20 @@ def run_same_dir_case(rng, res: CaseResult):
     # every file or directory a computation creates or writes (result, scratch, run info, log, work / error directories) carries ITS key in its name:
     # two different computations of one task must not meet in a shared scratch name either
     allowed = {refscheme.rel_dir(t_['slug']) + '/' + t_['key'] for t_ in ref.tasks.values()}
+    keyed = {(refscheme.rel_dir(t_['slug']) + '/', t_['key']) for t_ in ref.tasks.values()}
+
+    def carries_key(p_):
+        # `<task dir>/<name>...` where <name> starts with the key, or is a hidden scratch name holding the key (`.<key>.tmp.json`)
+        if any(p_.startswith(a_) or a_.startswith(p_ + '/') for a_ in allowed):
+            return True
+        return any(p_.startswith(d_) and k_ in p_[len(d_):].split('/')[0] for d_, k_ in keyed)
     for o_ in st[1:1 + len(names)]:
         for ev, path in o_.get('fs', []):
             if ev not in ('open_w', 'os.mkdir', 'os.rename', 'os.replace', 'shutil.move'):
                 continue
             for p_ in path.split(' -> '):
                 res.count('written_paths_checked')
-                if not any(p_.startswith(a_) or a_.startswith(p_ + '/') for a_ in allowed):
+                if not carries_key(p_):
                     res.violate(f'while computing {o_.get("task")}: `{ev} {path}` touches a name in the data directory that does not carry the key of any computation '
                                 f'of this chain (a scratch name shared between different computations of a task)', witness={'spec': spec, 'root': root},
                                 facts={'tag': 'shared_scratch_name'})
